@@ -32,6 +32,7 @@ package main
 import (
 	"fmt"
 	"math"
+	"reflect"
 	"strconv"
 	"strings"
 
@@ -329,13 +330,16 @@ func (r *c06Run) infCase(base *env.Env) {
 // phase typed: typed lists as the right operand of `in`
 
 type c06TL struct {
-	ek byte // element type: 's' string, 'i' int64, 'f' float64, 'b' bool, 'I' interface{}
+	ek byte // element type: 's' string, 'i' int64, 'f' float64, 'b' bool, 'I' interface{}, 'u' a host integer type (c06_r7.go)
 	el []c06V
+	w  byte // 'u': index into c06HostInts
 }
 
 // the type as anko spells it
 func (t c06TL) typeName() string {
 	switch t.ek {
+	case 'u':
+		return "[]" + c06HostInts[t.w].name
 	case 's':
 		return "[]string"
 	case 'i':
@@ -351,6 +355,8 @@ func (t c06TL) typeName() string {
 // the Go slice of the elements el (of this list's element type)
 func (t c06TL) goSlice(el []c06V) interface{} {
 	switch t.ek {
+	case 'u':
+		return c06HostIntSlice(t.w, el)
 	case 's':
 		out := make([]string, len(el))
 		for j, e := range el {
@@ -396,6 +402,8 @@ func (t c06TL) key() string {
 // an element of this list's type that is not meant to match anything (padding of views)
 func (t c06TL) pad() c06V {
 	switch t.ek {
+	case 'u':
+		return c06HI(t.w, 77)
 	case 's':
 		return c06S("pad")
 	case 'i':
@@ -447,6 +455,10 @@ func c06TLSupply(t c06TL, mode string, binds map[string]interface{}, bindsS map[
 			binds["mk"] = func() []bool { return v }
 		case []interface{}:
 			binds["mk"] = func() []interface{} { return v }
+		default: // a slice of another element type (c06_r7.go): a Go function with that result type
+			rv := reflect.ValueOf(v)
+			binds["mk"] = reflect.MakeFunc(reflect.FuncOf(nil, []reflect.Type{rv.Type()}, false),
+				func([]reflect.Value) []reflect.Value { return []reflect.Value{rv} }).Interface()
 		}
 		bindsS["mk"] = "Go func() " + t.typeName() + "{} returning " + t.key()
 		return "", "mk()", true
@@ -501,7 +513,7 @@ func c06TLSupply(t c06TL, mode string, binds map[string]interface{}, bindsS map[
 	case "view":
 		padded := append(append([]c06V{t.pad()}, t.el...), t.pad(), t.pad())
 		binds["yv"] = t.goSlice(padded)
-		bindsS["yv"] = c06TL{t.ek, padded}.key()
+		bindsS["yv"] = c06TL{ek: t.ek, el: padded, w: t.w}.key()
 		return "", fmt.Sprintf("yv[1:%d]", n+1), true
 	case "listelem":
 		binds["box"] = []interface{}{nil, t.goVal()}
